@@ -60,9 +60,10 @@ def replay(rec, ctx):
     samples = [float(x) for x in out.samples]
     dl = (HI - LO) / BINS
     integral = sum(samples) * dl
-    scale = EC.NU * EC.NU * EC.UNIT
+    nu = EC.nu(rec)
+    scale = nu * nu * EC.UNIT
     if m == "brems":
-        K = rec["total"] * EC.NU * EC.NU              # ne * sum n_i Z^2 g  (gaunt is dimensionless)
+        K = rec["total"] * nu * nu              # ne * sum n_i Z^2 g  (gaunt is dimensionless)
         te = float(rec["te"])
         for i in (0, BINS // 2, BINS - 1):
             lo, hi = LO + i * dl, LO + (i + 1) * dl
@@ -89,6 +90,21 @@ def replay(rec, ctx):
     elif m == "brems": want_calls = {("gaunt",)}
     if got != want_calls:
         bad("provider-asked-for-other-coefficients", f"asked {sorted(got)}, rule prescribes {sorted(want_calls)}")
+    # (T) arguments of the coefficient evaluations: PEC(n_e, T_e), PEC_d(n_e, T_e, T_d), g_ff(Z, T_e, wavelength in the window)
+    ne, te = rec["ne"] * nu, float(rec["te"])
+    for tag, args in [(x[1], x[2]) for x in calls if x[0] == "eval"]:
+        if tag == "gaunt":
+            ok = args[0] in {float(q) for s_, (sy, q, z) in rec["species"].items() if q > 0 and rec["dens"][s_] != -9} and args[1] == te and LO <= args[2] <= HI
+            exp = ("charge of a present ion", te, f"{LO}..{HI}")
+        elif tag.startswith("tcx:"):
+            exp = (ne, te, float(rec["temp"][tag[4:]]))
+            ok = core.close(list(args), list(exp), rtol=1e-12)
+        else:
+            exp = (ne, te)
+            ok = core.close(list(args), list(exp), rtol=1e-12)
+        if not ok:
+            bad("coefficient-evaluated-at-wrong-arguments", f"{tag}{args} vs {exp}")
+            break
     return viol
 
 
@@ -115,7 +131,7 @@ def run_models(v, mod, models, fn="replay"):
         import random
         rng = random.Random(v.seed)
         cases = [r for r in cases if rng.random() < 40000 / len(cases)]
-    if len({r["model"] for r in cases}) != models.count(",") + 1 or not any(r["raises"] for r in cases):
+    if len({r["model"] for r in cases}) != models.count(",") + 1 or not any(r["raises"] for r in cases) or len({r.get("mag") for r in cases}) < 3:
         raise core.MachineryError("vacuity: models / raising cases missing")
     out = core.fan_out(mod, fn, cases, {"rates": rates})
     obs = {}
@@ -125,7 +141,7 @@ def run_models(v, mod, models, fn="replay"):
                 obs[x["observation"]] = obs.get(x["observation"], 0) + 1
             else:
                 v.violation(x["sig"], x["detail"], dict(r, rates=rates))
-    v.add_cases(len(cases), keys=[json.dumps([r["model"], r.get("prior"), r.get("flow"), r["dens"], r["temp"], r["ne"], r["te"], r["nb"]], sort_keys=True) for r in cases])
+    v.add_cases(len(cases), keys=[json.dumps([r["model"], r.get("prior"), r.get("flow"), r.get("mag"), r["dens"], r["temp"], r["ne"], r["te"], r["nb"]], sort_keys=True) for r in cases])
     v.sample({k: cases[len(cases) // 2][k] for k in ("model", "dens", "temp", "ne", "te", "total", "raises")})
     v.notes["not_asserted"] = obs
     return cases
@@ -140,7 +156,7 @@ def run(v):
 
 
 def selftest():
-    rates = {"exc": 3, "rec": 5, "plt": 11, "prb": 13, "prc": 17, "gaunt": 2, "tcx": {"d0": 9, "d1": 11, "he1": 13, "c5": 15, "c6": 17},
+    rates = {"exc": 3, "rec": 5, "plt": 11, "prb": 13, "prc": 17, "gaunt": [3, 4, 5, 6, 7, 8], "tcx": {"d0": 9, "d1": 11, "he1": 13, "c5": 15, "c6": 17},
              "bmp": {}, "bes": {}, "bcx": [23, 27]}
     rec = {"model": "exc", "dens": {"d0": 2, "d1": -9, "he1": -9, "c5": -9, "c6": -9}, "temp": {"d0": 3, "d1": 3, "he1": 3, "c5": 3, "c6": 3}, "ne": 2, "te": 3, "nb": 0,
            "raises": False, "total": 12, "unspecified": False, "needs": ["d0"], "donors": [], "hyd": ["d0"], "rates": rates,
